@@ -640,6 +640,13 @@ pub fn listen<S: ?Sized + AsRef<str>, H: crate::ConnectionHandler + Send + Sync 
             .map(|_| 100)
             .unwrap_or(to_wait);
         let mut stream = loop {
+            // also honour the stop flag while connections keep arriving faster than the
+            // accept timeout
+            if let Some(stop) = listen_config.stop_listening.as_ref() {
+                if stop.load(Ordering::SeqCst) {
+                    return Ok(());
+                }
+            }
             match listener.accept(wait_time) {
                 Err(e) => match e.kind() {
                     ErrorKind::Timeout => {
